@@ -71,6 +71,24 @@ fn check_expansion(ctx: &Ctx, periods: &[(usize, u32)], what: &str) -> u64 {
         let first = got.iter().zip(exp.iter()).position(|(a, b)| a != b);
         ctx.violation(key, &format!("{}: {} days, expected {}; first difference at day {:?}", what, got.len(), exp.len(), first), json!({"part": "expansion", "periods(week pattern, days)": periods}));
     }
+    // history on one object (and on its clone): expanded, then a weekly schedule edited in place, then expanded again
+    if hash64(&got) % 16 == 0 {
+        for on_clone in [false, true] {
+            let (mut db2, id2) = sched_db(periods);
+            let _ = db2.get_year_as_day_sch(id2);
+            let _ = db2.year_values(id2);
+            let mut q = if on_clone { db2.clone() } else { db2 };
+            for w in q.week.iter_mut() {
+                w.values = vec![(uid("d6"), 7)];
+            }
+            q.day[6].values = vec![0.5; 24];
+            let again = q.get_year_as_day_sch(id2);
+            let vals2 = q.year_values(id2);
+            if again.iter().any(|d| *d != uid("d6")) || again.len() != exp.len() || vals2.iter().any(|v| *v != 0.5) {
+                ctx.violation("year-expansion:stale-after-edit", &format!("{}: after a first expansion every weekly schedule was set to one daily schedule (value 0.5) in place{}; the second expansion still has {} other days and {} other hourly values", what, if on_clone { " on a clone" } else { "" }, again.iter().filter(|d| **d != uid("d6")).count(), vals2.iter().filter(|v| **v != 0.5).count()), json!({"part": "expansion", "history": ["expand", "edit weekly schedules in place", "expand"], "on_clone": on_clone, "periods": periods}));
+            }
+        }
+    }
     // values: 24 per day
     let vals = db.year_values(id);
     if vals.len() != exp.len() * 24 {
@@ -460,7 +478,7 @@ pub fn run(ctx: &Ctx) -> i32 {
     ctx.nontriv(tot);
     ctx.finish(
         "model_checking",
-        "(a) SchedulesDb::get_year_as_day_sch on all 1-, 2- and 3-period partitions of 365 days (1 + 364 + 66066) x weekly patterns {7 distinct days, 5+2, one day x7, 1+1+5} per period (all 4^k combinations; 4 fixed combinations for 3 periods in quick), the 12 calendar months and all 2^11 merges of adjacent months: day n takes slot n mod 7 of its period's week; (b) BDL SCHEDULE-PD / WEEK-SCHEDULE-PD / DAY-SCHEDULE-PD documents through Data::new + Model::try_from: every end date 1..365, every pair (d,31 Dec), every triple (a,b,31 Dec) (every 11th in quick), all 3^7 weekly name lists, daily lists of 24 and of 1 value: period lengths from a calendar table, runs cover 7 days, 24 values, weekday alignment; (c) occupancy on 1..3 spaces x kind x inside x multiplier x all set partitions of schedule sharing x daily profiles {zero, one, morning, evening, 1e-6, negative} (4..6 spaces: star/chain): occupied hours = count of hours with any non-zero occupancy, mean load = area-weighted mean of schedule-averaged loads; all cases distinct by construction",
+        "(a) SchedulesDb::get_year_as_day_sch on all 1-, 2- and 3-period partitions of 365 days (1 + 364 + 66066) x weekly patterns {7 distinct days, 5+2, one day x7, 1+1+5} per period (all 4^k combinations; 4 fixed combinations for 3 periods in quick), the 12 calendar months and all 2^11 merges of adjacent months: day n takes slot n mod 7 of its period's week, and for every 16th case the history expand -> weekly schedules edited in place (also on a clone) -> expand; (b) BDL SCHEDULE-PD / WEEK-SCHEDULE-PD / DAY-SCHEDULE-PD documents through Data::new + Model::try_from: every end date 1..365, every pair (d,31 Dec), every triple (a,b,31 Dec) (every 11th in quick), all 3^7 weekly name lists, daily lists of 24 and of 1 value: period lengths from a calendar table, runs cover 7 days, 24 values, weekday alignment; (c) occupancy on 1..3 spaces x kind x inside x multiplier x all set partitions of schedule sharing x daily profiles {zero, one, morning, evening, 1e-6, negative} (4..6 spaces: star/chain): occupied hours = count of hours with any non-zero occupancy, mean load = area-weighted mean of schedule-averaged loads; all cases distinct by construction",
         true,
         json!({}),
     )
